@@ -3,6 +3,7 @@ import RbV.Basic.AlignCodec
 import RbV.Ref.Gotoh
 import RbV.Model.PairwiseCustom
 import RbV.Model.PairwiseFill
+import RbV.Model.PairwiseFillI32
 /-! Driver for property C01: pairwise alignment optimal, path achieves score, history independent.
 
 `c01 const => min:<MIN_SCORE>`
@@ -61,7 +62,20 @@ def checkCall (sc : Sc) (cl : Clip) (idx : Nat) (call : String × List Nat × Li
               (fun r => if filt then Model.Pairwise.filterClips r else r) with
             | some r => if r == o then "fill-path=impl" else "drift-fill-path"
             | none => "drift-fill-no-termination"
-          .ok ([mtag, ftag, itag, htag, ptag] ++ (if !x.isEmpty && !y.isEmpty && !core.isEmpty then ["nt"] else [])
+          -- the checked-`i32` mirror (`Model/PairwiseFillI32.lean`, theorem `custom_i32_no_overflow`): its outcome against the
+          -- implementation; whether the call lies in the parametric envelope `AlignEnv` of `custom_i32_correct` (the
+          -- harness refuses calls outside); how close to the bound `2(m+n+1)·B < −MIN_SCORE` the call is
+          let ctag := match Model.PairwiseFill.customC sc cl' x y with
+            | .done r => if (if filt then Model.Pairwise.filterClips r else r) == o then "i32-model=impl" else "drift-i32-path"
+            | .overflow => "drift-i32-overflow"
+            | .noTermination => "drift-i32-no-termination"
+          let etag := if Model.PairwiseFill.alignEnv sc cl' x y then "align-env" else "outside-align-env"
+          let bm := Model.PairwiseFill.bMax sc x y
+          let used := 2 * (((x.length : Int) + y.length + 1) * bm)
+          let stags := (if bm > 1024 then ["bigscores"] else []) ++
+            (if 2 * used ≥ -minScore then ["env-upper-half"] else []) ++
+            (if 100 * used ≥ -(99 * minScore) then ["env-edge-1pct"] else [])
+          .ok ([mtag, ftag, itag, htag, ptag, ctag, etag] ++ stags ++ (if !x.isEmpty && !y.isEmpty && !core.isEmpty then ["nt"] else [])
             ++ [mode]
             ++ (if x.isEmpty || y.isEmpty then ["emptyseq"] else [])
             ++ (if hasClip o.ops then ["clipops"] else [])
